@@ -1,4 +1,6 @@
 import LexVerif.Proof.RoundNE
+import LexVerif.Proof.LitBits
+import LexVerif.Proof.Shortest
 /-!
 # Props.RoundNE — sanity theorems about the float oracles `Spec.roundNE`, `Spec.litBits`, `Spec.shortest`
 
@@ -99,5 +101,38 @@ theorem roundNE_of_valQ (hf : WF f) {b : Nat} (hb : b < f.infBits) (num : Nat) {
   rw [h, valQ_eq_ival hf hb, num_den_eq f _ h2, h1]
   have : ((f.decode b).toFrac.2 : ℚ) ≠ 0 := by exact_mod_cast Nat.ne_of_gt h2
   push_cast; field_simp
+
+/-! ## `litBits` -/
+
+/-- a literal whose digits are all zero is the signed zero, whatever its exponent -/
+theorem litBits_zero (f : Fmt) (r b : Nat) (l : FloatLit)
+    (h : ∀ d ∈ l.intDigits ++ l.fracDigits, d = 0) :
+    litBits f r b l = if l.neg then f.signBit else 0 := by
+  unfold litBits
+  simp only [ofDigits_zeros r _ h, if_true]
+
+/-- `litBits` never returns a NaN pattern -/
+theorem litBits_not_nan (hf : WF f) {r b : Nat} (hr : 0 < r) (hb : 0 < b) (l : FloatLit) :
+    f.isNaN (litBits f r b l) = false := by
+  obtain ⟨x, hx, he⟩ := litBits_form hf hr hb l
+  rw [he]
+  split
+  · rw [isNaN_add_signBit hf]; exact isNaN_of_le_inf hx
+  · exact isNaN_of_le_inf hx
+
+/-- the sign bit of `litBits` is the literal's sign (also for zero and infinity) -/
+theorem litBits_sign (hf : WF f) {r b : Nat} (hr : 0 < r) (hb : 0 < b) (l : FloatLit) :
+    f.isNeg (litBits f r b l) = l.neg := by
+  obtain ⟨x, hx, he⟩ := litBits_form hf hr hb l
+  obtain ⟨h1, h2⟩ := isNeg_of_le_inf hf hx
+  rw [he]
+  cases l.neg <;> simp [h1, h2]
+
+/-! ## `shortest` -/
+
+/-- every decimal returned by `shortest` rounds back to `bits` -/
+theorem shortest_roundtrips (hf : WF f) {bits : Nat} (h0 : 0 < bits) (hfin : bits < f.infBits)
+    {D : Nat} {E : Int} (h : (D, E) ∈ shortest f bits) :
+    roundNE f (decFrac D E).1 (decFrac D E).2 = bits := shortest_roundtrips' hf h0 hfin h
 
 end LexVerif.Props.RoundNE
